@@ -65,6 +65,7 @@ func targeted() {
 	reentrantRecursion()
 	failedStartKeepsWrites()
 	wrappedNestedFailures()
+	deepReturn()
 }
 
 // failedStartKeepsWrites: an instantiation that fails in its START function has already applied its active element
